@@ -94,6 +94,96 @@ struct ServerConn {
     flag: Arc<Flag>,
     panicked: Option<String>,
     finished: bool,
+    /// stage-granular overlap mode: the connection future lives on its own parked OS thread
+    remote: Option<RemoteConn>,
+    /// Some(stage tag) while the connection is suspended inside a solve (at a hook-H2 yield point)
+    suspended: Option<&'static str>,
+}
+
+enum Cmd {
+    Poll,
+    Resume,
+    Quit,
+}
+
+enum Evt {
+    Yield(&'static str),
+    PollDone { finished: bool, panicked: Option<String> },
+}
+
+struct RemoteConn {
+    cmd: std::sync::mpsc::Sender<Cmd>,
+    evt: std::sync::mpsc::Receiver<Evt>,
+    handle: Option<std::thread::JoinHandle<()>>,
+}
+
+/// The connection future is created and polled on its own thread, inside its own 1-worker
+/// rayon pool. Exactly one thread of the simulation runs at any time: the scheduler hands the
+/// baton over with `Cmd` and waits for the next `Evt` of that thread. Hook H2's yield callback
+/// makes every pipeline stage boundary inside `solve_instance` a preemption point.
+fn spawn_remote(router: axum::Router, pipe: SimPipe, flag: Arc<Flag>) -> RemoteConn {
+    let (cmd_tx, cmd_rx) = std::sync::mpsc::channel::<Cmd>();
+    let (evt_tx, evt_rx) = std::sync::mpsc::channel::<Evt>();
+    let handle = std::thread::Builder::new()
+        .name("sim-conn".into())
+        .stack_size(128 << 20)
+        .spawn(move || {
+            let pool = rayon::ThreadPoolBuilder::new().num_threads(1).stack_size(64 << 20).build().expect("pool");
+            let cmd_rx = Arc::new(Mutex::new(cmd_rx));
+            let svc = hyper_util::service::TowerToHyperService::new(router);
+            let conn = hyper::server::conn::http1::Builder::new().serve_connection(pipe, svc);
+            let mut fut: Option<Pin<Box<dyn Future<Output = Result<(), hyper::Error>> + Send>>> = Some(Box::pin(conn));
+            loop {
+                let c = cmd_rx.lock().unwrap().recv();
+                match c {
+                    Ok(Cmd::Poll) => {
+                        if fut.is_none() {
+                            let _ = evt_tx.send(Evt::PollDone { finished: true, panicked: None });
+                            continue;
+                        }
+                        flag.0.store(false, Ordering::SeqCst);
+                        let waker = Waker::from(flag.clone());
+                        let f = fut.as_mut().unwrap();
+                        let (etx, crx) = (evt_tx.clone(), cmd_rx.clone());
+                        let r = pool.install(|| {
+                            let (etx2, crx2) = (etx.clone(), crx.clone());
+                            server::verif_hooks::set_yield(Some(Box::new(move |tag: &'static str| {
+                                // give the baton back and wait until the scheduler resumes this solve
+                                let _ = etx2.send(Evt::Yield(tag));
+                                loop {
+                                    match crx2.lock().unwrap().recv() {
+                                        Ok(Cmd::Resume) | Err(_) => break,
+                                        Ok(_) => {}
+                                    }
+                                }
+                            })));
+                            let mut cx = Context::from_waker(&waker);
+                            crate::seams::clear_last_panic();
+                            let r = catch_unwind(AssertUnwindSafe(|| f.as_mut().poll(&mut cx)));
+                            server::verif_hooks::set_yield(None);
+                            r
+                        });
+                        match r {
+                            Ok(Poll::Pending) => {
+                                let _ = evt_tx.send(Evt::PollDone { finished: false, panicked: None });
+                            }
+                            Ok(Poll::Ready(_)) => {
+                                fut = None;
+                                let _ = evt_tx.send(Evt::PollDone { finished: true, panicked: None });
+                            }
+                            Err(_) => {
+                                fut = None;
+                                let _ = evt_tx.send(Evt::PollDone { finished: true, panicked: Some(take_last_panic().unwrap_or_else(|| "panic".into())) });
+                            }
+                        }
+                    }
+                    Ok(Cmd::Resume) => {}
+                    Ok(Cmd::Quit) | Err(_) => break,
+                }
+            }
+        })
+        .expect("spawn conn thread");
+    RemoteConn { cmd: cmd_tx, evt: evt_rx, handle: Some(handle) }
 }
 
 thread_local! {
@@ -117,16 +207,23 @@ fn real_router() -> Result<axum::Router, String> {
     }
 }
 
-fn new_conn(router: &axum::Router) -> ServerConn {
+fn new_conn(router: &axum::Router, overlap: bool) -> ServerConn {
     let pipe = SimPipe(Arc::new(Mutex::new(PipeInner::default())));
+    let flag = Arc::new(Flag(AtomicBool::new(true)));
+    if overlap {
+        let remote = spawn_remote(router.clone(), pipe.clone(), flag.clone());
+        return ServerConn { fut: None, pipe, flag, panicked: None, finished: false, remote: Some(remote), suspended: None };
+    }
     let svc = hyper_util::service::TowerToHyperService::new(router.clone());
     let conn = hyper::server::conn::http1::Builder::new().serve_connection(pipe.clone(), svc);
     ServerConn {
         fut: Some(Box::pin(conn)),
         pipe,
-        flag: Arc::new(Flag(AtomicBool::new(true))),
+        flag,
         panicked: None,
         finished: false,
+        remote: None,
+        suspended: None,
     }
 }
 
@@ -211,6 +308,7 @@ pub fn gen_case(seed: u64, focus: &str) -> Value {
     json!({
         "sim": "c", "seed": seed, "focus": focus, "clients": clients,
         "hash_key": rng.next_u64(), "workers": *rng.pick(&[1u64, 1, 2, 4]), "sched_seed": rng.next_u64(),
+        "overlap": rng.chance(1, 3),
     })
 }
 
@@ -462,6 +560,7 @@ fn run_inner(case: &Value) -> Value {
         Err(e) => return json!({"outcome": "invalid_case", "panic": e, "violations": []}),
     };
     let mut rng = Rng::new(case["sched_seed"].as_u64().unwrap_or(0));
+    let overlap = case["overlap"].as_bool().unwrap_or(false);
     let mut viols: Vec<Violation> = vec![];
     let mut faults: BTreeMap<String, u64> = BTreeMap::new();
     let mut probes: BTreeMap<String, u64> = BTreeMap::new();
@@ -494,7 +593,36 @@ fn run_inner(case: &Value) -> Value {
 
     // ---- helpers over the shared state -------------------------------------------------------
     fn poll_conn(c: &mut ServerConn) {
-        if c.finished || c.fut.is_none() {
+        if c.finished {
+            return;
+        }
+        if c.remote.is_some() {
+            // overlap mode: hand the baton to the connection thread (start a poll, or resume a solve
+            // that is suspended at a stage boundary) and wait until it yields or the poll ends
+            let resume = c.suspended.is_some();
+            let r = c.remote.as_ref().unwrap();
+            let _ = r.cmd.send(if resume { Cmd::Resume } else { Cmd::Poll });
+            match r.evt.recv() {
+                Ok(Evt::Yield(tag)) => c.suspended = Some(tag),
+                Ok(Evt::PollDone { finished, panicked }) => {
+                    c.suspended = None;
+                    if finished {
+                        c.finished = true;
+                        c.pipe.0.lock().unwrap().server_closed = true;
+                    }
+                    if panicked.is_some() {
+                        c.panicked = panicked;
+                    }
+                }
+                Err(_) => {
+                    c.suspended = None;
+                    c.finished = true;
+                    c.pipe.0.lock().unwrap().server_closed = true;
+                }
+            }
+            return;
+        }
+        if c.fut.is_none() {
             return;
         }
         c.flag.0.store(false, Ordering::SeqCst);
@@ -577,7 +705,7 @@ fn run_inner(case: &Value) -> Value {
                 }
             }
             for (j, c) in conns.iter().enumerate() {
-                if !c.finished && c.flag.0.load(Ordering::SeqCst) {
+                if !c.finished && (c.flag.0.load(Ordering::SeqCst) || c.suspended.is_some()) {
                     ev.push((4, j, 0));
                 }
             }
@@ -614,7 +742,7 @@ fn run_inner(case: &Value) -> Value {
                 0 | 1 => {
                     let cl = &mut clients[e.1];
                     let k = if e.0 == 0 {
-                        conns.push(new_conn(&router));
+                        conns.push(new_conn(&router, overlap));
                         cl.conns.push(ClientConn { conn: conns.len() - 1, sent_reqs: vec![], out: VecDeque::new(), answered: 0, aborted: false, consumed: 0 });
                         cl.conns.len() - 1
                     } else {
@@ -633,7 +761,7 @@ fn run_inner(case: &Value) -> Value {
                         // the same request is delivered a second time on another connection (retry / duplicate)
                         *faults.entry("duplicate_on_second_connection".into()).or_insert(0) += 1;
                         fault_happened_at = Some(steps);
-                        conns.push(new_conn(&router));
+                        conns.push(new_conn(&router, overlap));
                         let mut dup = ClientConn { conn: conns.len() - 1, sent_reqs: vec![ri], out: VecDeque::new(), answered: 0, aborted: false, consumed: 0 };
                         for b in cl.reqs[ri].bytes.clone() {
                             dup.out.push_back((ri, b));
@@ -796,7 +924,15 @@ fn run_inner(case: &Value) -> Value {
                     }
                 }
                 _ => {
+                    let others_suspended = conns.iter().enumerate().filter(|(j, c)| *j != e.1 && c.suspended.is_some()).count();
+                    let was_suspended = conns[e.1].suspended.is_some();
                     poll_conn(&mut conns[e.1]);
+                    if others_suspended > 0 && (was_suspended || conns[e.1].suspended.is_some()) {
+                        *probes.entry("solve_ran_while_another_solve_was_suspended".into()).or_insert(0) += 1;
+                    }
+                    if let Some(tag) = conns[e.1].suspended {
+                        *probes.entry(format!("preempted_at_{}", tag)).or_insert(0) += 1;
+                    }
                     if conns[e.1].panicked.is_some() {
                         *probes.entry("connection_task_panicked".into()).or_insert(0) += 1;
                     }
@@ -805,6 +941,20 @@ fn run_inner(case: &Value) -> Value {
         }
         if viols.iter().any(|x| x.check.starts_with("C18.step_cap") || x.check.starts_with("C18.stuck")) {
             break;
+        }
+    }
+    // overlap mode: let every suspended solve run to completion, then stop the connection threads
+    for c in conns.iter_mut() {
+        let mut guard = 0;
+        while c.suspended.is_some() && guard < 100 {
+            poll_conn(c);
+            guard += 1;
+        }
+        if let Some(r) = c.remote.as_mut() {
+            let _ = r.cmd.send(Cmd::Quit);
+            if let Some(h) = r.handle.take() {
+                let _ = h.join();
+            }
         }
     }
     // every valid, non-excused request got its 200
